@@ -1,0 +1,32 @@
+//go:build verif
+
+// Machine-checked contracts for package tnet (read by /verif/govc; comments only).
+
+package tnet
+
+// While Close waits, other goroutines (Accept) change the reference count.
+//@ extern (*sync.Cond).Wait()
+//@   modifies all
+//@ extern (*sync.Cond).Broadcast()
+//@   modifies nothing
+
+// The wrapper guarantees that no Accept is in flight once Close has returned
+// successfully: Close returns nil only after it has seen the count at zero.
+//@ func (s *listener) Close() (err error)
+//@   nosafety
+//@   modifies all
+//@   label close-returns-only-with-no-accept-in-flight
+//@   ensures err == nil ==> s.refs <= 0
+//@   property C07
+
+// Accept holds a reference for exactly the duration of the underlying Accept.
+//@ func (s *listener) incRef()
+//@   nosafety
+//@   modifies s.refs
+//@   ensures old(s.refs) < 9223372036854775807 ==> s.refs == old(s.refs) + 1
+//@   property C07
+//@ func (s *listener) decRef()
+//@   nosafety
+//@   modifies s.refs
+//@   ensures old(s.refs) > -9223372036854775808 ==> s.refs == old(s.refs) - 1
+//@   property C07
